@@ -139,6 +139,9 @@ EarlyOK(j) ==
   /\ l \notin E /\ j \notin E /\ Cardinality(E) < MaxEarly
   /\ Dep(Rec[j], Rec[l])
   /\ Rec[j].pv < l \/ Rec[j].pv \in E
+  \* the harness connects its clients one after the other: their connects happen in the order they are logged
+  \* (pc = the previous Cli_Connect record), so only the next connect(s) in that order can be ahead of the log
+  /\ Rec[j].pc < l \/ Rec[j].pc \in E
 
 Consume ==
   IF l \in E
